@@ -34,7 +34,8 @@ Record mstate := {
   m_it : list Z;                       (* iteration *)
   m_pt : list Z;                       (* point *)
   m_tr : list (tkey * tstate);         (* traces *)
-  m_saved : list (Z * list Z) }.       (* local `iteration` copies of populate generators, by rank *)
+  m_saved : list (Z * list Z);         (* local `iteration` copies of generators, by slot *)
+  m_rm : list (Z * Z) }.               (* rank_matches: matched rank -> registered loop rank *)
 
 Inductive mev :=
 | EReg (r : Z)                                 (* registerRank *)
@@ -43,7 +44,14 @@ Inductive mev :=
 | EEnd (r : Z)                                 (* endIter *)
 | ESave (s : Z)                                (* iteration = Metrics.getIter().copy() *)
 | EBump (s r : Z)                              (* iteration[Metrics.getIndex(rank)] += 1 *)
-| EUseS (r c pos kind label s : Z).            (* addUse(..., iteration_num=iteration) *)
+| EUseS (r c pos kind label s : Z)             (* addUse(..., iteration_num=iteration) *)
+(* the same calls for a rank that is not a loop rank itself but matched to one (matchRanks):
+   the index is that of rank_matches[rank] and cls.point is not updated (metrics.py:87-93) *)
+| EStartM (src r : Z)                          (* registerRank(r): rank_matches[src] = r, start src's traces *)
+| EUseM (r c pos kind label : Z)
+| EUseSM (r c pos kind label s : Z)
+| EIncM (r : Z)
+| EBumpM (s r : Z).
 
 Fixpoint index_of (r : Z) (l : list Z) : option nat :=
   match l with
@@ -90,7 +98,8 @@ Definition map_key (P : tkey -> bool) (f : tstate -> tstate) (tr : list (tkey * 
   map (fun kt => if P (fst kt) then (fst kt, f (snd kt)) else kt) tr.
 
 Definition with_tr (st : mstate) (tr : list (tkey * tstate)) : mstate :=
-  {| m_lo := m_lo st; m_it := m_it st; m_pt := m_pt st; m_tr := tr; m_saved := m_saved st |}.
+  {| m_lo := m_lo st; m_it := m_it st; m_pt := m_pt st; m_tr := tr; m_saved := m_saved st;
+     m_rm := m_rm st |}.
 
 (* addUse (metrics.py:54-119) with the stamp given *)
 Definition add_use (n : Z) (st : mstate) (r c pos kind label : Z) (stamp : list Z) : mstate :=
@@ -101,44 +110,90 @@ Definition add_use (n : Z) (st : mstate) (r c pos kind label : Z) (stamp : list 
     let data := firstn (S i) stamp ++ firstn i pt ++ [c] ++ [pos] in
     {| m_lo := m_lo st; m_it := m_it st; m_pt := pt;
        m_tr := map_key (key_eqb (r, kind, label)) (push_row n data) (m_tr st);
-       m_saved := m_saved st |}
+       m_saved := m_saved st; m_rm := m_rm st |}
+  end.
+
+Fixpoint lookup_rm (r : Z) (m : list (Z * Z)) : option Z :=
+  match m with
+  | [] => None
+  | (s, d) :: m' => if r =? s then Some d else lookup_rm r m'
+  end.
+
+(* index of a matched rank: line_order[rank_matches[rank]] *)
+Definition aidx (st : mstate) (r : Z) : option nat :=
+  match lookup_rm r (m_rm st) with Some d => index_of d (m_lo st) | None => None end.
+
+(* addUse for a matched rank *)
+Definition add_use_m (n : Z) (st : mstate) (r c pos kind label : Z) (stamp : list Z) : mstate :=
+  match aidx st r with
+  | None => st
+  | Some i =>
+    let data := firstn (S i) stamp ++ firstn i (m_pt st) ++ [c] ++ [pos] in
+    with_tr st (map_key (key_eqb (r, kind, label)) (push_row n data) (m_tr st))
   end.
 
 Definition step (n : Z) (st : mstate) (e : mev) : mstate :=
   match e with
   | EReg r =>                                    (* registerRank, metrics.py:494-534 *)
-    match index_of r (m_lo st) with
-    | Some _ => st
-    | None =>
+    (* (a rank that is already known through a match is not registered a second time here:
+       that would restart its traces; loop nests never do it) *)
+    match index_of r (m_lo st), lookup_rm r (m_rm st) with
+    | None, None =>
       let lo := m_lo st ++ [r] in
       {| m_lo := lo; m_it := m_it st ++ [0]; m_pt := m_pt st ++ [0];
          m_tr := map_key (fun k => key_rank k =? r)
                          (start_trace (header lo (length (m_lo st)))) (m_tr st);
-         m_saved := m_saved st |}
+         m_saved := m_saved st; m_rm := m_rm st |}
+    | _, _ => st
     end
   | EUse r c pos kind label => add_use n st r c pos kind label (m_it st)
   | EInc r =>
     match index_of r (m_lo st) with
     | None => st
     | Some i => {| m_lo := m_lo st; m_it := upd i (fun x => x + 1) (m_it st); m_pt := m_pt st;
-                   m_tr := m_tr st; m_saved := m_saved st |}
+                   m_tr := m_tr st; m_saved := m_saved st; m_rm := m_rm st |}
     end
   | EEnd r =>
     match index_of r (m_lo st) with
     | None => st
     | Some i => {| m_lo := m_lo st; m_it := upd i (fun _ => 0) (m_it st); m_pt := m_pt st;
-                   m_tr := m_tr st; m_saved := m_saved st |}
+                   m_tr := m_tr st; m_saved := m_saved st; m_rm := m_rm st |}
     end
   | ESave s => {| m_lo := m_lo st; m_it := m_it st; m_pt := m_pt st; m_tr := m_tr st;
-                  m_saved := (s, m_it st) :: m_saved st |}
+                  m_saved := (s, m_it st) :: m_saved st; m_rm := m_rm st |}
   | EBump s r =>
     match index_of r (m_lo st) with
     | None => st
     | Some i => {| m_lo := m_lo st; m_it := m_it st; m_pt := m_pt st; m_tr := m_tr st;
                    m_saved := (s, upd i (fun x => x + 1) (lookup_saved s (m_saved st)))
-                              :: m_saved st |}
+                              :: m_saved st; m_rm := m_rm st |}
     end
   | EUseS r c pos kind label s => add_use n st r c pos kind label (lookup_saved s (m_saved st))
+  | EStartM src r =>
+    (* the part of registerRank(r) that concerns a rank matched to r (metrics.py:526-534);
+       only the first match of a rank that is not itself a loop rank takes effect here *)
+    match index_of r (m_lo st), index_of src (m_lo st), lookup_rm src (m_rm st) with
+    | Some i, None, None =>
+      {| m_lo := m_lo st; m_it := m_it st; m_pt := m_pt st;
+         m_tr := map_key (fun k => key_rank k =? src) (start_trace (header (m_lo st) i)) (m_tr st);
+         m_saved := m_saved st; m_rm := (src, r) :: m_rm st |}
+    | _, _, _ => st
+    end
+  | EUseM r c pos kind label => add_use_m n st r c pos kind label (m_it st)
+  | EUseSM r c pos kind label s => add_use_m n st r c pos kind label (lookup_saved s (m_saved st))
+  | EIncM r =>
+    match aidx st r with
+    | None => st
+    | Some i => {| m_lo := m_lo st; m_it := upd i (fun x => x + 1) (m_it st); m_pt := m_pt st;
+                   m_tr := m_tr st; m_saved := m_saved st; m_rm := m_rm st |}
+    end
+  | EBumpM s r =>
+    match aidx st r with
+    | None => st
+    | Some i => {| m_lo := m_lo st; m_it := m_it st; m_pt := m_pt st; m_tr := m_tr st;
+                   m_saved := (s, upd i (fun x => x + 1) (lookup_saved s (m_saved st)))
+                              :: m_saved st; m_rm := m_rm st |}
+    end
   end.
 
 Definition exec (n : Z) (st : mstate) (evs : list mev) : mstate := fold_left (step n) evs st.
@@ -150,7 +205,7 @@ Definition fresh_trace (file mem : bool) : tstate :=
 
 Definition init_state (keys : list tkey) (file mem : bool) : mstate :=
   {| m_lo := []; m_it := []; m_pt := [];
-     m_tr := map (fun k => (k, fresh_trace file mem)) keys; m_saved := [] |}.
+     m_tr := map (fun k => (k, fresh_trace file mem)) keys; m_saved := []; m_rm := [] |}.
 
 (* what the CSV file holds after endCollect (the last _writeTrace appends the cached rows) *)
 Definition file_content (t : tstate) : list row := t_written t ++ t_pending t.
